@@ -119,9 +119,15 @@ dwpp_abbrev_offset (Dwarf_Abbrev &abbrev)
 inline size_t
 dwpp_abbrev_attrcnt (Dwarf_Abbrev &abbrev)
 {
-  size_t ret;
-  if (dwarf_getattrcnt (&abbrev, &ret) != 0)
-    throw_libdw ();
+  // dwarf_getattrcnt of elfutils (0.188 at least) does not skip the value
+  // that follows DW_FORM_implicit_const, and ends up counting too few
+  // attributes.  dwarf_getabbrevattr does, so walk the list instead.
+  size_t ret = 0;
+  unsigned int name;
+  unsigned int form;
+  Dwarf_Off offset;
+  while (dwarf_getabbrevattr (&abbrev, ret, &name, &form, &offset) == 0)
+    ++ret;
   return ret;
 }
 
